@@ -4,7 +4,7 @@ PROPS = {
     'C03': dict(
         title='Resolution orders are valid linearizations and equal C3 whenever C3 exists',
         contracts=['C03_ro', 'C02_spec'], falsifier='C03', modes=['py'], level='proof',
-        only={'C02_spec': ['interface.py:Specification.changed']},
+        only={'C02_spec': ['interface.py:Specification.changed', 'interface.py:Specification.__setBases']},
         level_text='Every obligation generated from the real bodies of the C3 merge functions of ro.py '
                    '(_can_choose_base, _nonempty_bases_ignoring, _find_next_C3_base, _choose_next_base, '
                    '_guess_next_base x2, _merge, mro) against the textbook C3 definition is discharged for all inputs '
@@ -100,8 +100,10 @@ PROPS = {
     'C09': dict(
         title='Registration bookkeeping reflects exactly the net effect of the history',
         contracts=['C09_registry'], falsifier='C09', modes=['py'], level='other',
-        only={'C09_registry': ['adapter.py:BaseAdapterRegistry.register', 'adapter.py:BaseAdapterRegistry.unregister', 'adapter.py:BaseAdapterRegistry.subscribe', 'adapter.py:BaseAdapterRegistry.unsubscribe', 'adapter.py:BaseAdapterRegistry._addValueToLeaf', 'adapter.py:BaseAdapterRegistry._removeValueFromLeaf', 'adapter.py:_convert_None_to_Interface']},
-        level_text="Verified from the real bodies for all registry contents: register rejects non-string names with ValueError before "
+        only={'C09_registry': ['adapter.py:BaseAdapterRegistry.register', 'adapter.py:BaseAdapterRegistry.unregister', 'adapter.py:BaseAdapterRegistry.subscribe', 'adapter.py:BaseAdapterRegistry.unsubscribe', 'adapter.py:BaseAdapterRegistry._addValueToLeaf', 'adapter.py:BaseAdapterRegistry._removeValueFromLeaf', 'adapter.py:_convert_None_to_Interface',
+                               'adapter.py:BaseAdapterRegistry._setBases', 'adapter.py:BaseAdapterRegistry.__init__']},
+        level_text="Verified from the real bodies for all registry contents: (re-)initialisation installs fresh empty containers and "
+                   "continues the generation counter (rebuild() runs it on a live registry); register rejects non-string names with ValueError before "
                    "touching anything, treats None as unregister, and notifies (generation bump + cache invalidation) unless that very "
                    "object is already registered under the key; unregister/unsubscribe either leave every existing container untouched "
                    "or end by notifying; subscribe always notifies; _addValueToLeaf appends, _removeValueFromLeaf removes exactly the "
@@ -119,7 +121,8 @@ PROPS = {
         creturns={'_subcache': 'borrowed', '_getcache': 'borrowed'},
         only={'C04_lookup': ['adapter.py:AdapterLookupBase._uncached_lookup'],
               'C02_spec': ['interface.py:Specification.changed', 'interface.py:Specification.__setBases'],
-              'C09_registry': ['adapter.py:LookupBase.changed', 'adapter.py:BaseAdapterRegistry.changed', 'adapter.py:AdapterRegistry.changed', 'adapter.py:BaseAdapterRegistry.register', 'adapter.py:BaseAdapterRegistry.unregister', 'adapter.py:BaseAdapterRegistry.subscribe', 'adapter.py:BaseAdapterRegistry.unsubscribe'],
+              'C09_registry': ['adapter.py:LookupBase.changed', 'adapter.py:BaseAdapterRegistry.changed', 'adapter.py:AdapterRegistry.changed', 'adapter.py:BaseAdapterRegistry.register', 'adapter.py:BaseAdapterRegistry.unregister', 'adapter.py:BaseAdapterRegistry.subscribe', 'adapter.py:BaseAdapterRegistry.unsubscribe',
+                               'adapter.py:BaseAdapterRegistry._setBases', 'adapter.py:BaseAdapterRegistry.__init__'],
               'C05_cache': ['adapter.py:LookupBase._getcache', 'adapter.py:LookupBase.lookup', 'adapter.py:LookupBase.lookupAll',
                             'adapter.py:LookupBase.subscriptions', 'adapter.py:LookupBase.lookup1', 'adapter.py:LookupBase.adapter_hook',
                             'adapter.py:LookupBase.queryAdapter']},
@@ -147,12 +150,14 @@ PROPS = {
         only={'C04_lookup': ['adapter.py:AdapterLookupBase._uncached_lookup'],
               'C09_registry': ['adapter.py:BaseAdapterRegistry.changed', 'adapter.py:AdapterRegistry.changed',
                                'adapter.py:BaseAdapterRegistry._setBases', 'adapter.py:AdapterRegistry._setBases',
-                               'adapter.py:AdapterRegistry._addSubregistry', 'adapter.py:AdapterRegistry._removeSubregistry']},
+                               'adapter.py:AdapterRegistry._addSubregistry', 'adapter.py:AdapterRegistry._removeSubregistry',
+                               'adapter.py:BaseAdapterRegistry.__init__']},
         level_text='_uncached_lookup is verified to consult the registries of the stored resolution order nearest first and to '
                    'stop at the first hit. Assigning __bases__ is verified from the real bodies: BaseAdapterRegistry._setBases records '
                    'the bases, stores exactly the C3 order ro.ro computes from the base graph as it then is, leaves every other '
                    'registry\'s bases and order alone and notifies last; AdapterRegistry._setBases additionally leaves the registry '
-                   'linked as sub-registry of every new base and of no dropped one, touching no other link; the generation-checking '
+                   'linked as sub-registry of every new base and of no dropped one, touching no other link; (re-)initialisation (__init__, which '
+                   'rebuild() runs on a live registry) continues the generation counter instead of restarting it; the generation-checking '
                    'flavour (VerifyingBase, Python reference): changed() empties the caches and re-takes the snapshot from the '
                    'registry\'s current order with the generations of exactly those registries, _verify() does nothing when every '
                    'snapshot generation is current and otherwise runs changed(), and _getcache/lookupAll/subscriptions verify the '
